@@ -1291,7 +1291,6 @@ def run(ctx, replay=None):
         run_cases(ctx, replay)
     finally:
         shutil.rmtree(_TMP_ROOT, ignore_errors=True)
-        os.makedirs(_TMP_ROOT, exist_ok=True)
 
 
 def corpus_specs(kind):
@@ -1360,6 +1359,9 @@ PARTS = {16: "final summary of Tuner.run (tuner_final_summary)", 1: "rows (cb_ru
 def report_model_mismatches(ctx, tag, terms, meta):
     if not terms:
         return
+    # one single-threaded evaluation first: common's per-process scratch directory is created lazily and the
+    # parallel shards of coq_bad_cases would race on its creation
+    ctx.coq_eval(tag + "_warm", IMPORTS, "", ["0%nat"])
     bad = ctx.coq_bad_cases(tag, IMPORTS, PRELUDE, "chk_case", terms, shard=25)
     if not bad:
         return
